@@ -344,4 +344,50 @@ def check(case, ctx):
                 pass
         if len(items) > 4:
             break
+    if items:
+        return items
+    # second phase: the document is EDITED after it has been serialised once (a record added to the document and to a
+    # bundle already inside it, a value added to an existing element) - every destination kind must show the document as it
+    # is now, and the returned string must read back as it (a serialisation remembered from before the edit may not return)
+    from prov.model import ProvElement
+    edited = 0
+    for scope in [d] + list(d.bundles)[:1]:
+        el = next((r for r in scope.get_records(ProvElement) if r.identifier is not None), None)
+        if el is None:
+            continue
+        try:
+            ns = el.identifier.namespace
+            scope.entity(ns["%s_added_later" % el.identifier.localpart.replace("/", "_").replace("#", "_")[:8]])
+            el.add_attributes([(ns["noted_later"], "after")])
+            edited += 1
+        except Exception as e:
+            return [exc_item(e, "edit_after_serialize")]
+    if not edited:
+        return items
+    if why_not_expressible(d):
+        return items
+    ctx.count("edited_after_serialize")
+    want_bag = canon(d)
+    want_set = as_sets(canon(d.unified()))
+    for fmt in ("json", "xml", "rdf"):
+        try:
+            c07.deterministic_bnodes()
+            s2 = d.serialize(format=fmt)
+            c07.deterministic_bnodes()
+            t2 = io.StringIO()
+            d.serialize(t2, format=fmt)
+            c07.deterministic_bnodes()
+            b2 = io.BytesIO()
+            d.serialize(b2, format=fmt)
+        except Exception as e:
+            return [exc_item(e, "serialize_after_edit:" + fmt)]
+        if not _same_text(fmt, s2, t2.getvalue()):
+            items.append(_it("text_differs_after_edit:%s:str_vs_textstream" % fmt))
+        if not _same_text(fmt, s2, b2.getvalue().decode("utf-8")):
+            items.append(_it("text_differs_after_edit:%s:str_vs_binarystream" % fmt))
+        for nm, mk in (("content_str", dict(content=s2)), ("binary", dict(source=io.BytesIO(b2.getvalue())))):
+            try:
+                same_doc(fmt, ProvDocument.deserialize(format=fmt, **mk), "after_edit:%s:%s" % (fmt, nm))
+            except Exception as e:
+                items.append(exc_item(e, "deserialize_after_edit:%s:%s" % (fmt, nm)))
     return items
